@@ -89,7 +89,7 @@ def render(pre, loop, lay):
     def extras(d):
         # blank lines and comment lines before a code line at depth d
         while rng.random() < lay["p_blank"]:
-            text.append(rng.choice(["", "   ", "\t"]) if lay["ws_blank"] else "")
+            text.append(rng.choice(["", "   ", "\t", "\t\t", " ", " \t ", "        ", "\t" * rng.randint(1, 3)]) if lay["ws_blank"] else "")
             model.append("0:b:F:0")
         while rng.random() < lay["p_comment"]:
             if lay["comment_cols"] == "same":
@@ -132,7 +132,8 @@ def layout(rng, in_domain):
         "extras_before_continuation": (not in_domain) and rng.random() < 0.5,
         "stmt": rng.choice([(lambda t: f"mon.write( {t} )"), (lambda t: f"mon.write({t})"), (lambda t: f"mon.write({t})"),
                             (lambda t: f"mon.write(\"it's {t}\")"), (lambda t: f"mon.write('say \"{t}\" # not a comment')"),
-                            (lambda t: f"mon.write(\"#{t} \\\" q\")")]) if spaced or rng.random() < 0.4 else (lambda t: f"mon.write({t})"),
+                            (lambda t: f"mon.write(\"#{t} \\\" q\")"), (lambda t: f"mon.write(\"C:\\\\{t}\\\\\")"),
+                            (lambda t: f"mon.write('it\\'s {t}')"), (lambda t: f"mon.write(\"{t}\\\\\\\"#\")")]) if spaced or rng.random() < 0.4 else (lambda t: f"mon.write({t})"),
     }
 
 
